@@ -751,7 +751,14 @@ func binary(p *Parser, left Expr) (Expr, error) {
 	}
 	opToken := *p.previous
 
-	expr, err := p.expressionWithPrec(p.rule(opToken.Tag).prec)
+	// binary operators group left to right, so the right operand only takes
+	// tighter-binding operators. compound assignment groups right to left
+	prec := p.rule(opToken.Tag).prec
+	if prec != PrecAssign {
+		prec++
+	}
+
+	expr, err := p.expressionWithPrec(prec)
 	if err != nil {
 		return nil, err
 	}
